@@ -28,6 +28,8 @@ class C14(WrapHarness):
             out.append({'feat': 'full', 'algo': algo, 'sep': 'A', 'split': 'H', 'bw': True, 'le': 'LF', 'gen': 'words',
                         'nwords': 3, 'wl': 1 if q else 2, 'maxgap': 2, 'trail': True, 'wmax': 1 << 16})
         out += std_tmpl_spaces({'feat': 'full', 'algo': 'F', 'sep': 'A', 'split': 'H', 'bw': True, 'le': 'LF'}, q)
+        out += atmpl_spaces({'feat': 'full', 'algo': 'F', 'split': 'H', 'bw': False, 'le': 'LF'},
+                            ['short', 'wide'] if q else ['short', 'wide', 'sentence', 'paras'], [' ', 'a', '-', '你', '\n', ')'])
         # Unicode separator: no force-breaking (break_words off)
         for split in ('N', 'H'):
             out.append({'feat': 'full', 'algo': 'F', 'sep': 'U', 'split': split, 'bw': False, 'le': 'LF', 'gen': 'alpha',
